@@ -77,8 +77,15 @@ DenseMatrix spe_embedding(RandomAccessIterator begin, RandomAccessIterator end, 
     IndexIterator ind2;
     // Helper used in local strategy
     Indices ind1Neighbors;
+    // Partners chosen in local strategy (kept apart so that indices stays a permutation)
+    Indices partners;
     if (!global_strategy)
+    {
         ind1Neighbors.resize(static_cast<size_t>(k) * nupdates);
+        partners.resize(nupdates);
+    }
+    // First partner of the current iteration
+    IndexIterator ind2_begin;
 
     for (IndexType i = 0; i < max_iter; ++i)
     {
@@ -86,7 +93,8 @@ DenseMatrix spe_embedding(RandomAccessIterator begin, RandomAccessIterator end, 
         tapkee::random_shuffle(indices.begin(), indices.end());
 
         ind1 = indices.begin();
-        ind2 = indices.begin() + nupdates;
+        ind2_begin = global_strategy ? indices.begin() + nupdates : partners.begin();
+        ind2 = ind2_begin;
 
         // With local strategy, the seecond set of indices is selected among
         // neighbors of the first set
@@ -107,7 +115,7 @@ DenseMatrix spe_embedding(RandomAccessIterator begin, RandomAccessIterator end, 
             for (int j = 0; j < nupdates; ++j)
             {
                 IndexType r = static_cast<IndexType>(floor(tapkee::uniform_random() * (k - 1)) + k * j);
-                indices[nupdates + j] = ind1Neighbors[r];
+                partners[j] = ind1Neighbors[r];
             }
         }
 
@@ -126,7 +134,7 @@ DenseMatrix spe_embedding(RandomAccessIterator begin, RandomAccessIterator end, 
             Rt.fill(1);
 
         ind1 = indices.begin();
-        ind2 = indices.begin() + nupdates;
+        ind2 = ind2_begin;
         for (int j = 0; j < nupdates; ++j)
             Rt[j] *= callback.distance(*(begin + *ind1++), *(begin + *ind2++));
 
@@ -137,7 +145,7 @@ DenseMatrix spe_embedding(RandomAccessIterator begin, RandomAccessIterator end, 
         scale = (Rt - D).cwiseQuotient(D);
 
         ind1 = indices.begin();
-        ind2 = indices.begin() + nupdates;
+        ind2 = ind2_begin;
         // Difference matrix
         for (int j = 0; j < nupdates; ++j)
         {
@@ -147,7 +155,7 @@ DenseMatrix spe_embedding(RandomAccessIterator begin, RandomAccessIterator end, 
         }
 
         ind1 = indices.begin();
-        ind2 = indices.begin() + nupdates;
+        ind2 = ind2_begin;
         // Update the location of the vectors in the embedded space
         for (int j = 0; j < nupdates; ++j)
         {
